@@ -8,3 +8,70 @@ pub use crate::dap::yadap::session::data::{
     ScalarKind as DapScalarKind, verif_parse_set_value as dap_parse_set_value,
     verif_write_bytes as dap_write_bytes,
 };
+pub use super::debugee::dwarf::verif_hooks::{VerifFunction, VerifLineRow, VerifPlace, VerifUnit};
+
+use super::address::GlobalAddress;
+use super::error::Error;
+
+/// Read-only access to the main executable's debug information: the dump of the parsed units as
+/// stored, and the raw lookups behind breakpoints and source places.
+impl super::Debugger {
+    pub fn verif_debug_info_dump(&self) -> Result<Vec<VerifUnit>, Error> {
+        self.debugee.program_debug_info()?.verif_dump_units()
+    }
+
+    pub fn verif_find_unit_by_pc(&self, pc: u64) -> Result<Option<usize>, Error> {
+        self.debugee
+            .program_debug_info()?
+            .verif_find_unit_by_pc(GlobalAddress::from(pc as usize))
+    }
+
+    pub fn verif_find_place_from_pc(&self, pc: u64) -> Result<Option<VerifPlace>, Error> {
+        self.debugee
+            .program_debug_info()?
+            .verif_find_place_from_pc(GlobalAddress::from(pc as usize))
+    }
+
+    pub fn verif_find_exact_place_from_pc(&self, pc: u64) -> Result<Option<VerifPlace>, Error> {
+        self.debugee
+            .program_debug_info()?
+            .verif_find_exact_place_from_pc(GlobalAddress::from(pc as usize))
+    }
+
+    pub fn verif_find_function_by_pc(&self, pc: u64) -> Result<Option<(usize, usize)>, Error> {
+        self.debugee
+            .program_debug_info()?
+            .verif_find_function_by_pc(GlobalAddress::from(pc as usize))
+    }
+
+    pub fn verif_find_closest_place(
+        &self,
+        file_tpl: &str,
+        line: u64,
+    ) -> Result<Vec<VerifPlace>, Error> {
+        self.debugee
+            .program_debug_info()?
+            .verif_find_closest_place(file_tpl, line)
+    }
+
+    pub fn verif_find_places_in_line_range(
+        &self,
+        file_tpl: &str,
+        start_line: u64,
+        end_line: u64,
+    ) -> Result<Vec<VerifPlace>, Error> {
+        self.debugee
+            .program_debug_info()?
+            .verif_find_places_in_line_range(file_tpl, start_line, end_line)
+    }
+
+    pub fn verif_prolog_end_place(
+        &self,
+        unit_idx: usize,
+        die_offset: usize,
+    ) -> Result<VerifPlace, Error> {
+        self.debugee
+            .program_debug_info()?
+            .verif_prolog_end_place(unit_idx, die_offset)
+    }
+}
